@@ -20,9 +20,9 @@ import (
 
 type PReg struct {
 	Family, ID, Kind, Idx, Mask, Size, Info uint64
-	Name                                   string
-	Tag                                    uint64
-	R                                      reg.Physical
+	Name                                    string
+	Tag                                     uint64
+	R                                       reg.Physical
 }
 
 func regTable() []PReg {
@@ -654,19 +654,19 @@ func genProg(r *RNG, o ProgOpts) *Prog {
 // ---------------------------------------------------------------- staged execution of the real passes
 
 type Observed struct {
-	Stage   string // pass that failed ("" = success)
-	ErrCode int
-	ErrMsg  string
-	Targets map[string]int // label -> instruction index (after prune passes)
-	Succs   [][]int        // -1 = nil successor
-	Preds   [][]int
-	LiveIn  [][][2]uint64
-	LiveOut [][][2]uint64
-	Alloc   [][2]uint64
-	Nodes   []ir.Node // final nodes
+	Stage                                         string // pass that failed ("" = success)
+	ErrCode                                       int
+	ErrMsg                                        string
+	Targets                                       map[string]int // label -> instruction index (after prune passes)
+	Succs                                         [][]int        // -1 = nil successor
+	Preds                                         [][]int
+	LiveIn                                        [][][2]uint64
+	LiveOut                                       [][][2]uint64
+	Alloc                                         [][2]uint64
+	Nodes                                         []ir.Node // final nodes
 	AfterJumps, AfterLabels, AfterZext, AfterBind []ir.Node
-	Local   int
-	ISA     []string
+	Local                                         int
+	ISA                                           []string
 }
 
 var errCodes = []struct {
